@@ -1647,7 +1647,10 @@ static off_t mod_deflate_file_chunk_no_mmap(request_st * const r, handler_ctx * 
 
     ssize_t rd = 0;
     for (n = 0; n < insz; n += rd) {
-        rd = chunk_file_pread(c->file.fd, p, (size_t)psz, c->offset+n);
+        /*(do not read past end of chunk; file may extend beyond c->file.length)*/
+        rd = chunk_file_pread(c->file.fd, p,
+                              (insz - n < (off_t)psz) ? (size_t)(insz - n) : psz,
+                              c->offset+n);
         if (__builtin_expect( (rd > 0), 1)) {
             if (0 == mod_deflate_compress(hctx, (unsigned char *)p, rd))
                 continue;
